@@ -140,7 +140,7 @@ CHECKS = {
         "engines": _e1([("auth", 150), ("mixed", 50)], [("auth", 3000), ("mixed", 1500)]),
         "level": "exploration",
         "rule": E1_RULE + E3_RULE + "C06 oracle: a request succeeds iff (by construction) its signature is a correct one by a registered, unexpired user over exactly the "
-                "request's message (mutations: other message, truncated, one character changed, non-zbase32, empty, unregistered key); every failure is an "
+                "request's message (mutations: other message, truncated, one character changed, non-zbase32, empty, unregistered key, and a correct signature the same signer produced for an earlier, different request replayed here); every failure is an "
                 "authentication error and leaves the database byte-identical; after every request all records of every other user are unchanged; "
                 "get_subscription_info lists only the signer's locators. non-trivial = history with >= 1 rejected signature.",
         "assumptions": E1_ASSUME,
@@ -249,7 +249,8 @@ CHECKS = {
                 "reachability signal holding these locks' is observed as a state; time is virtual (bounded waits expire only when the harness ticks the clock). "
                 "Oracle (bounded progress): (1) the call that hit the outage never returns with its RPC given up; (1b) a call that neither returns nor parks itself waiting "
                 "for the node while > 400 of its RPCs fail with transport errors has noticed the outage without waiting for it to end: violation (with the value of the "
-                "reachability flag the public API consults); (2) once a call is waiting for the node, all four public endpoints answer 'unavailable'; (3) every poll issued during the outage returns; (4) after the node is back, within 2 polls and 3 clock "
+                "reachability flag the public API consults); (1c) at every node RPC that fails during the outage after the first one (= a retry by a tower that has noticed) "
+                "the reachability flag must still say unreachable - nothing has answered since; (2) once a call is waiting for the node, all four public endpoints answer 'unavailable'; (3) every poll issued during the outage returns; (4) after the node is back, within 2 polls and 3 clock "
                 "ticks the interrupted call completes, the API is available again, and (5) from H's next poll on the database equals the uninterrupted run's "
                 "(every breach answered, nothing dropped). non-trivial = fault reached; distinct = distinct (history, fault). Second engine (e3o), same oracle in real "
                 "time against the real teosd binary: from teosd's k-th node RPC on the fake bitcoind drops every TCP connection without an answer (RPC and block "
